@@ -1,1 +1,370 @@
-fn main() { eprintln!("placeholder"); std::process::exit(2); }
+//! btsim: seeded deterministic simulation of TurDB's B-tree (C28, C29) and freelist (C34)
+//! against small reference models. See ENGINE_GUIDE.md; CLI in the style of vsim.
+
+mod btcase;
+mod btgen;
+mod bytespec;
+mod engine;
+mod flcase;
+mod guard;
+mod storage;
+mod walker;
+
+use engine::Btsim;
+use simcore::driver::{self, CheckSpec, Engine};
+use simcore::pool::{self, JobStatus, PoolCfg};
+use simcore::Tier;
+use std::time::Duration;
+
+struct PropSpec {
+    id: &'static str,
+    profile: &'static str,
+    level: &'static str,
+    quick_runs: u64,
+    thorough_runs: u64,
+}
+
+const PROPS: &[PropSpec] = &[
+    PropSpec { id: "C28", profile: "bt", level: "exploration", quick_runs: 6000, thorough_runs: 60000 },
+    PropSpec { id: "C29", profile: "bt", level: "exploration", quick_runs: 6000, thorough_runs: 60000 },
+    PropSpec { id: "C34", profile: "fl", level: "exploration", quick_runs: 6000, thorough_runs: 80000 },
+];
+
+fn arg_value(args: &[String], flag: &str) -> Option<String> {
+    args.iter().position(|a| a == flag).and_then(|i| args.get(i + 1).cloned())
+}
+
+fn env_u64(k: &str) -> Option<u64> {
+    std::env::var(k).ok().and_then(|v| v.parse().ok())
+}
+
+fn workers() -> usize {
+    env_u64("VSIM_WORKERS")
+        .map(|v| v as usize)
+        .unwrap_or_else(|| std::thread::available_parallelism().map(|n| n.get()).unwrap_or(8).min(16))
+}
+
+fn full_profile(p: &str) -> String {
+    if p.contains('@') {
+        return p.to_string();
+    }
+    // accept a bare property id or a bare profile name
+    match PROPS.iter().find(|s| s.id == p) {
+        Some(s) => format!("{}@{}", s.profile, s.id),
+        None => match p {
+            "fl" => "fl@C34".to_string(),
+            _ => format!("{}@C28", p),
+        },
+    }
+}
+
+fn cmd_check(args: &[String]) -> i32 {
+    let id = match args.first() {
+        Some(i) => i.clone(),
+        None => {
+            eprintln!("usage: btsim check <C28|C29|C34> [--tier quick|thorough] [--seed N] [--runs N]");
+            return 2;
+        }
+    };
+    let ps = match PROPS.iter().find(|p| p.id == id) {
+        Some(p) => p,
+        None => {
+            eprintln!("unknown property {}", id);
+            return 2;
+        }
+    };
+    let tier = Tier::parse(&arg_value(args, "--tier").or_else(|| std::env::var("VERIF_TIER").ok()).unwrap_or_else(|| "quick".into()));
+    let seed = arg_value(args, "--seed").and_then(|s| s.parse().ok()).or_else(|| env_u64("VERIF_SEED")).unwrap_or(1);
+    let runs = arg_value(args, "--runs")
+        .and_then(|s| s.parse().ok())
+        .or_else(|| env_u64("VSIM_RUNS"))
+        .unwrap_or(if tier == Tier::Thorough { ps.thorough_runs } else { ps.quick_runs });
+    let spec = CheckSpec {
+        property: ps.id.to_string(),
+        profile: format!("{}@{}", ps.profile, ps.id),
+        tier,
+        seed,
+        runs,
+        workers: workers(),
+        run_timeout: Duration::from_secs(if tier == Tier::Thorough { 300 } else { 90 }),
+        batch_budget: Duration::from_secs(if tier == Tier::Thorough { 1500 } else { 150 }),
+        level: ps.level.to_string(),
+        also_owns: vec![],
+        min_budget_runs: if tier == Tier::Thorough { 12000 } else { 6000 },
+        min_budget_wall: Duration::from_secs(if tier == Tier::Thorough { 120 } else { 40 }),
+        max_minimise: if tier == Tier::Thorough { 16 } else { 8 },
+    };
+    driver::run_check(&Btsim, &spec)
+}
+
+fn cmd_replay(args: &[String]) -> i32 {
+    let path = match args.first() {
+        Some(p) => std::path::PathBuf::from(p),
+        None => {
+            eprintln!("usage: btsim replay <file>");
+            return 2;
+        }
+    };
+    driver::replay(&Btsim, &path)
+}
+
+fn print_outcome(st: JobStatus, verbose: bool) {
+    match st {
+        JobStatus::Done(o) => {
+            if verbose {
+                println!("{}", serde_json::to_string_pretty(&o.sample).unwrap_or_default());
+            }
+            println!("counters: {:?}", o.counters);
+            println!("events_hash={:016x} nontrivial={} harness_error={:?}", o.events_hash, o.nontrivial, o.harness_error);
+            for v in &o.violations {
+                println!("VIOL {} :: {}", v.sig_string(), v.detail);
+            }
+        }
+        other => println!("{:?}", other),
+    }
+}
+
+/// `btsim run1 <profile> <seed> <run> [tier]` — one seeded run, outcome printed.
+fn cmd_run1(args: &[String]) -> i32 {
+    if args.len() < 3 {
+        eprintln!("usage: btsim run1 <profile|property> <seed> <run> [tier]");
+        return 2;
+    }
+    let profile = full_profile(&args[0]);
+    let seed: u64 = args[1].parse().unwrap_or(1);
+    let run: u64 = args[2].parse().unwrap_or(0);
+    let tier = Tier::parse(args.get(3).map(|s| s.as_str()).unwrap_or("quick"));
+    let base = pool::default_scratch_base();
+    let cfg = PoolCfg { workers: 1, timeout: Duration::from_secs(300), scratch: base.join("run1"), deadline: None };
+    let res = pool::run_jobs(&cfg, &[run], |j| Btsim.run_seeded(&profile, seed, j, tier));
+    pool::cleanup(&base);
+    for (_, st) in res {
+        print_outcome(st, true);
+    }
+    0
+}
+
+/// `btsim gen <profile> <seed> <run> [tier]` — print the explicit case of a seeded run.
+fn cmd_gen(args: &[String]) -> i32 {
+    if args.len() < 3 {
+        eprintln!("usage: btsim gen <profile|property> <seed> <run> [tier]");
+        return 2;
+    }
+    let profile = full_profile(&args[0]);
+    let seed: u64 = args[1].parse().unwrap_or(1);
+    let run: u64 = args[2].parse().unwrap_or(0);
+    let tier = Tier::parse(args.get(3).map(|s| s.as_str()).unwrap_or("quick"));
+    let case = engine::seeded_case(&profile, seed, run, tier);
+    println!("{}", serde_json::to_string(&case).unwrap_or_default());
+    0
+}
+
+/// `btsim case <file>` — run a bare case file (the `case` object of a replay file, or a whole
+/// replay file) in-process and print the outcome.
+fn cmd_case(args: &[String]) -> i32 {
+    let path = match args.first() {
+        Some(p) => p.clone(),
+        None => {
+            eprintln!("usage: btsim case <file>");
+            return 2;
+        }
+    };
+    let doc: serde_json::Value = match std::fs::read(&path).ok().and_then(|b| serde_json::from_slice(&b).ok()) {
+        Some(d) => d,
+        None => {
+            eprintln!("cannot read {}", path);
+            return 2;
+        }
+    };
+    let case = if doc.get("case").is_some() { doc["case"].clone() } else { doc };
+    let base = pool::default_scratch_base();
+    let cfg = PoolCfg { workers: 1, timeout: Duration::from_secs(300), scratch: base.join("case"), deadline: None };
+    let res = pool::run_jobs(&cfg, &[0], |_| driver::exec_case_inline(&Btsim, &case));
+    pool::cleanup(&base);
+    for (_, st) in res {
+        print_outcome(st, true);
+    }
+    0
+}
+
+/// `btsim min <profile> <seed> <run> [class-substring] [tier]` — triage aid: run one seeded case,
+/// pick its first violation whose signature string contains the substring, minimise it
+/// in-process (same greedy loop as the driver, larger budget) and print the minimal case.
+fn cmd_min(args: &[String]) -> i32 {
+    if args.len() < 3 {
+        eprintln!("usage: btsim min <profile|property> <seed> <run> [sig-substring] [tier]");
+        return 2;
+    }
+    let profile = full_profile(&args[0]);
+    let seed: u64 = args[1].parse().unwrap_or(1);
+    let run: u64 = args[2].parse().unwrap_or(0);
+    let want = args.get(3).cloned().unwrap_or_default();
+    let tier = Tier::parse(args.get(4).map(|s| s.as_str()).unwrap_or("quick"));
+    let o = Btsim.run_seeded(&profile, seed, run, tier);
+    let v = match o.violations.iter().find(|v| v.sig_string().contains(&want)) {
+        Some(v) => v.clone(),
+        None => {
+            println!("no violation matching {:?}; run has: {:?}", want, o.violations.iter().map(|v| v.sig_string()).collect::<Vec<_>>());
+            return 0;
+        }
+    };
+    let class = v.class();
+    let mut cur = v;
+    let mut execs = 0usize;
+    'outer: loop {
+        for cand in Btsim.shrink(&cur.case) {
+            execs += 1;
+            if execs > 60000 {
+                break 'outer;
+            }
+            let o = Btsim.run_case(&cand);
+            if let Some(nv) = o.violations.into_iter().find(|x| x.class() == class) {
+                cur = nv;
+                continue 'outer;
+            }
+        }
+        break;
+    }
+    println!("minimised after {} executions", execs);
+    println!("sig: {}", cur.sig_string());
+    println!("detail: {}", cur.detail);
+    println!("case: {}", serde_json::to_string(&cur.case).unwrap_or_default());
+    0
+}
+
+/// `btsim selfcheck determinism <profile> <n> [seed]`: every seed twice, at two worker counts and
+/// with differently padded environments.
+fn cmd_selfcheck(args: &[String]) -> i32 {
+    if args.len() < 3 || args[0] != "determinism" {
+        eprintln!("usage: btsim selfcheck determinism <profile|property> <n> [seed]");
+        return 2;
+    }
+    let profile = full_profile(&args[1]);
+    let n: u64 = args[2].parse().unwrap_or(64);
+    let seed: u64 = args.get(3).and_then(|s| s.parse().ok()).unwrap_or(1);
+    let base = pool::default_scratch_base();
+    let jobs: Vec<u64> = (0..n).collect();
+    let mut hashes: Vec<Vec<(u64, String)>> = vec![];
+    for (round, w) in [(0, 4usize), (1, 16usize)] {
+        let cfg = PoolCfg { workers: w, timeout: Duration::from_secs(120), scratch: base.join(format!("det{}", round)), deadline: None };
+        if round == 1 {
+            std::env::set_var("VSIM_PAD", "x".repeat(777));
+        }
+        let res = pool::run_jobs(&cfg, &jobs, |j| Btsim.run_seeded(&profile, seed, j, Tier::Quick));
+        hashes.push(
+            res.into_iter()
+                .map(|(j, st)| match st {
+                    JobStatus::Done(o) => {
+                        let sigs: Vec<String> = o.violations.iter().map(|v| v.sig_string()).collect();
+                        let cnt = simcore::rng::fnv1a(format!("{:?}", o.counters).as_bytes());
+                        (j, format!("{:016x}/{:016x}/{}v/{:?}/{:?}", o.events_hash, cnt, o.violations.len(), sigs, o.harness_error))
+                    }
+                    other => (j, format!("{:?}", other).chars().take(60).collect()),
+                })
+                .collect(),
+        );
+    }
+    pool::cleanup(&base);
+    let mut bad = 0;
+    for (a, b) in hashes[0].iter().zip(hashes[1].iter()) {
+        if a != b {
+            println!("DIVERGED run {}: {} vs {}", a.0, a.1, b.1);
+            bad += 1;
+        }
+    }
+    println!("determinism: profile {} seed {}: {} seed pairs, {} diverged", profile, seed, n, bad);
+    if bad > 0 {
+        1
+    } else {
+        0
+    }
+}
+
+/// `btsim survey <profile> <n> [seed] [tier]`: signature histogram over n seeded runs (triage aid).
+fn cmd_survey(args: &[String]) -> i32 {
+    if args.len() < 2 {
+        eprintln!("usage: btsim survey <profile|property> <n> [seed] [tier]");
+        return 2;
+    }
+    let profile = full_profile(&args[0]);
+    let n: u64 = args[1].parse().unwrap_or(100);
+    let seed: u64 = args.get(2).and_then(|s| s.parse().ok()).unwrap_or(1);
+    let tier = Tier::parse(args.get(3).map(|s| s.as_str()).unwrap_or("quick"));
+    let base = pool::default_scratch_base();
+    let cfg = PoolCfg { workers: workers(), timeout: Duration::from_secs(120), scratch: base.join("survey"), deadline: None };
+    let jobs: Vec<u64> = (0..n).collect();
+    let t0 = std::time::Instant::now();
+    let res = pool::run_jobs(&cfg, &jobs, |j| Btsim.run_seeded(&profile, seed, j, tier));
+    pool::cleanup(&base);
+    let mut hist: std::collections::BTreeMap<String, (u64, u64, String)> = Default::default();
+    let mut counters: std::collections::BTreeMap<String, u64> = Default::default();
+    let mut clean = 0;
+    let mut steps = 0u64;
+    let mut nontrivial = 0u64;
+    for (j, st) in res {
+        match st {
+            JobStatus::Done(o) => {
+                steps += o.counters.get("steps").copied().unwrap_or(0);
+                for (k, v) in &o.counters {
+                    *counters.entry(k.clone()).or_insert(0) += v;
+                }
+                if o.nontrivial {
+                    nontrivial += 1;
+                }
+                if let Some(e) = &o.harness_error {
+                    let e2 = hist.entry(format!("HARNESS {}", e)).or_insert((0, j, String::new()));
+                    e2.0 += 1;
+                }
+                if o.violations.is_empty() {
+                    clean += 1;
+                }
+                let mut seen = std::collections::BTreeSet::new();
+                for v in &o.violations {
+                    if seen.insert(v.sig_string()) {
+                        let e = hist.entry(v.sig_string()).or_insert((0, j, v.detail.clone()));
+                        e.0 += 1;
+                    }
+                }
+            }
+            other => {
+                let e = hist.entry(format!("{:?}", other).chars().take(300).collect()).or_insert((0, j, String::new()));
+                e.0 += 1;
+            }
+        }
+    }
+    let mut v: Vec<_> = hist.into_iter().collect();
+    v.sort_by_key(|(_, (c, _, _))| std::cmp::Reverse(*c));
+    println!("{} runs, {} clean, {} nontrivial, {} steps, {:.1}s", n, clean, nontrivial, steps, t0.elapsed().as_secs_f64());
+    println!("counters: {:?}", counters);
+    for (sig, (c, j, d)) in v {
+        let d: String = d.chars().take(700).collect();
+        println!("{:5}x run{} {}\n        {}", c, j, sig, d.replace('\n', "\n        "));
+    }
+    0
+}
+
+fn main() {
+    let args: Vec<String> = std::env::args().collect();
+    simcore::noaslr::ensure();
+    let code = match args.get(1).map(|s| s.as_str()) {
+        Some("check") => cmd_check(&args[2..]),
+        Some("replay") => cmd_replay(&args[2..]),
+        Some("run1") => cmd_run1(&args[2..]),
+        Some("gen") => cmd_gen(&args[2..]),
+        Some("case") => cmd_case(&args[2..]),
+        Some("min") => cmd_min(&args[2..]),
+        Some("selfcheck") => cmd_selfcheck(&args[2..]),
+        Some("survey") => cmd_survey(&args[2..]),
+        Some("list") => {
+            for p in PROPS {
+                println!("{} btsim {}", p.id, p.profile);
+            }
+            0
+        }
+        _ => {
+            eprintln!("usage: btsim check|replay|run1|gen|case|selfcheck|survey|list ...");
+            2
+        }
+    };
+    std::process::exit(code);
+}
